@@ -20,6 +20,7 @@ CFG = dict(
     assumptions=["packets of one group arrive in sequence order and belong to groups seen at start-up",
                  "all groups use the same number of frames per packet (otherwise demuxData panics: excluded point, run and recorded)"],
     timeout=dict(quick=600, thorough=3600),
+    lean_files=["C03", "ComposeAbaco"],
 )
 
 MANIFEST = dict(
@@ -57,4 +58,6 @@ THEOREMS = [
     ("DastardV.Props.C03", "DastardV.C03.C03_dropped_count"),
     ("DastardV.Props.C03", "DastardV.C03.C03_oracle"),
     ("DastardV.Props.C03", "DastardV.C03.C03_unequal_fpp_panics"),
+    ("DastardV.Lemmas.ComposeAbaco", "DastardV.Compose.chanSegs_catChan"),
+    ("DastardV.Lemmas.ComposeAbaco", "DastardV.Compose.abaco_no_pulse_lost_packets"),
 ]
